@@ -30,8 +30,13 @@ type c11op struct {
 	Tree []vh.Node `json:"tree"`
 }
 
+// One URL of the model is one canonical string; the text it was found as varies (two spellings of the same query),
+// as the references of a real page do.
+var c11spell int
+
 func c11url(name string) *models.URL {
-	u := &models.URL{Raw: "http://example.com/x/" + name}
+	c11spell++
+	u := &models.URL{Raw: "http://example.com/x/" + name + []string{"?q=x+y", "?q=x%20y", "?q=x+y"}[c11spell%3]}
 	if err := u.Parse(); err != nil {
 		panic(err)
 	}
